@@ -16,7 +16,16 @@ pub fn spaces_c02(tier: &str, _seed: u64) -> Vec<Box<dyn Space>> {
     sweep_spaces(Judge::C02, tier)
 }
 pub fn spaces_c03(tier: &str, _seed: u64) -> Vec<Box<dyn Space>> {
-    sweep_spaces(Judge::C03, tier)
+    let mut v = sweep_spaces(Judge::C03, tier);
+    // "after any solve" includes solves that follow in-place data updates: the update histories
+    // of C08 (whose closing solve is judged by the C03 oracle) are part of this property's space
+    let maxd = if tier == "thorough" { 3 } else { 2 };
+    for base in 0..2 {
+        for depth in 1..=maxd {
+            v.push(Box::new(super::c08::Hist { depth, base, equil: true, presolve_active: false }));
+        }
+    }
+    v
 }
 pub fn spaces_c04(tier: &str, _seed: u64) -> Vec<Box<dyn Space>> {
     sweep_spaces(Judge::C04, tier)
